@@ -321,7 +321,7 @@ X87_POP = {"fstp", "fstps", "fstpl", "fstpt", "fistp", "fistps", "fistpl", "fist
            "fmulp", "fdivp", "fdivrp", "fcomip", "fucomip", "fisttp", "fisttpl", "fisttpq", "fisttpll"}
 X87_NONE = {"fchs", "fabs", "fnstcw", "fldcw", "fnstsw", "fxch", "fst", "fsts", "fstl", "fwait", "fnstenv", "fldenv", "fnclex",
             "fadd", "fsub", "fmul", "fdiv", "fsubr", "fdivr", "fucomi", "fcomi", "fsqrt",
-            "fadds", "faddl", "fsubs", "fsubl", "fmuls", "fmull", "fdivs", "fdivl", "fsubrs", "fsubrl", "fdivrs", "fdivrl"}
+            "fist", "fists", "fistl", "fadds", "faddl", "fsubs", "fsubl", "fmuls", "fmull", "fdivs", "fdivl", "fsubrs", "fsubrl", "fdivrs", "fdivrl"}
 X87_INIT = {"fninit", "finit"}
 # instructions without any effect on rsp or the x87 stack (unless rsp is an explicit destination, checked below)
 PLAIN = {"mov", "movb", "movw", "movl", "movq", "movabs", "movabsq", "lea", "add", "sub", "and", "or", "xor", "imul", "mul", "div", "idiv",
